@@ -11,12 +11,27 @@ use crate::stream::WebsocketStream;
 use humphrey::thread::pool::ThreadPool;
 use humphrey::App;
 
+#[cfg(not(humphrey_verif))]
 use std::collections::HashMap;
+#[cfg(humphrey_verif)]
+type HashMap<K, V> = std::collections::HashMap<K, V, std::hash::BuildHasherDefault<std::collections::hash_map::DefaultHasher>>;
 use std::net::{SocketAddr, ToSocketAddrs};
+#[cfg(not(humphrey_verif))]
 use std::sync::mpsc::{channel, Receiver, Sender};
+#[cfg(humphrey_verif)]
+use humphrey::verif::sync::mpsc::{channel, Receiver, Sender};
+#[cfg(not(humphrey_verif))]
 use std::sync::{Arc, Mutex};
+#[cfg(humphrey_verif)]
+use humphrey::verif::sync::{Arc, Mutex};
+#[cfg(not(humphrey_verif))]
 use std::thread::{sleep, spawn};
+#[cfg(humphrey_verif)]
+use humphrey::verif::thread::{sleep, spawn};
+#[cfg(not(humphrey_verif))]
 use std::time::{Duration, Instant};
+#[cfg(humphrey_verif)]
+use humphrey::verif::time::{Duration, Instant};
 
 /// Represents an asynchronous WebSocket app.
 pub struct AsyncWebsocketApp<State, StreamState = ()>
